@@ -174,6 +174,11 @@ pub trait Check: Sync {
         false
     }
     /// per-case wall-clock watchdog in seconds (backstop only)
+    /// thorough tier: run one batch in eight in an AddressSanitizer build (real frees, so reads of
+    /// freed memory and out-of-bounds accesses that change nothing observable still stop the run)
+    fn asan_flavour_share(&self) -> bool {
+        false
+    }
     fn watchdog_s(&self, _tier: Tier) -> u64 {
         30
     }
